@@ -17,7 +17,7 @@ pub fn unit() -> Val {
 }
 
 fn is_int(t: &Ty) -> bool {
-    matches!(t, Ty::Usize | Ty::U8 | Ty::Int)
+    matches!(t, Ty::Usize | Ty::U8 | Ty::Int | Ty::UInt)
 }
 
 /// `Some(<something that is not a plain binding or wildcard>)`
@@ -132,6 +132,18 @@ impl<'a> Tr<'a> {
             return self.unsup("`return` of something that is not an `Err(..)` inside a loop");
         }
         let outs = self.out_terms(env)?;
+        // a plain result in a function whose Lean definition returns `Res` (the body may panic)
+        let v = if self.plain_res && self.mode == Mode::Res && !matches!(v.ty, Ty::ResPE(_)) {
+            if v.callres {
+                return self.unsup("call result returned from a function with a plain result type");
+            }
+            let mut v2 = v.clone();
+            v2.t = format!("(Res.ok {})", v.t);
+            v2.ty = Ty::ResPE(Box::new(v.ty.clone()));
+            v2
+        } else {
+            v
+        };
         match self.mode {
             Mode::Pure => {
                 if v.eff() || v.callres {
@@ -277,6 +289,23 @@ impl<'a> Tr<'a> {
         match &stmts[0] {
             syn::Stmt::Local(l) => self.tr_let(l, rest, env, in_fn_tail, k),
             syn::Stmt::Expr(e, semi) => {
+                // `#[cfg(feature = "likelysubtags")] if .. { .. }`: present only when the feature is on for this target
+                let attrs: &[syn::Attribute] = match e {
+                    syn::Expr::If(x) => &x.attrs,
+                    syn::Expr::Match(x) => &x.attrs,
+                    syn::Expr::Block(x) => &x.attrs,
+                    _ => &[],
+                };
+                for a in attrs {
+                    let toks = norm_tokens(a).replace(' ', "");
+                    if toks == "#[cfg(feature=\"likelysubtags\")]" {
+                        if !self.features.iter().any(|f| f == "likelysubtags") {
+                            return self.tr_block(rest, env, in_fn_tail, k);
+                        }
+                    } else {
+                        return self.unsup(format!("attribute `{}` on a statement", norm_tokens(a)));
+                    }
+                }
                 if last && semi.is_none() && !matches!(e, syn::Expr::While(_) | syn::Expr::ForLoop(_)) {
                     return self.tr_tail(e, env, None, in_fn_tail, k);
                 }
@@ -452,6 +481,30 @@ impl<'a> Tr<'a> {
                     return self.unsup("`continue` inside an operand or closure");
                 }
                 self.loop_continue(env)
+            }
+            syn::Expr::Try(t) if self.plain_res && self.loops.is_empty() && self.pure_only == 0 => {
+                // `e?` on an Option in a function that returns an Option: `None` leaves the function
+                let v = self.tr_expr(&t.expr, env, None)?;
+                let ret_is_opt = matches!(&self.ret_ty, Ty::ResPE(x) if matches!(**x, Ty::Opt(_)));
+                match (&v.ty, ret_is_opt, v.callres) {
+                    (Ty::Opt(inner), true, false) => {
+                        let inner = (**inner).clone();
+                        self.force(v, env, &|me: &mut Tr<'a>, v: Val, env1: &Env| {
+                            let x = me.fresh("x");
+                            let some_d = k(me, Val::pure_(x.clone(), inner.clone()), env1)?;
+                            let none_d = me.k_ret(Val::pure_("none", Ty::Opt(Box::new(Ty::Infer))), env1)?;
+                            Ok(Doc::Match(v.t, vec![(format!("some {}", x), some_d), ("none".to_string(), none_d)]))
+                        })
+                    }
+                    _ => {
+                        // anything else: the expression-level `?`
+                        let v = self.tr_expr(e, env, expected)?;
+                        if v.callres {
+                            return k(self, v, env);
+                        }
+                        self.force(v, env, k)
+                    }
+                }
             }
             syn::Expr::If(i) => self.tr_if(i, env, expected, in_fn_tail, k),
             syn::Expr::Match(m) => self.tr_match(m, env, expected, in_fn_tail, k),
